@@ -29,6 +29,7 @@ structure Tun where
   capMul : Nat        -- `centroids_capacity_ = 2 * k_ + fudge`
   comprMul : Nat      -- `normalizer(2 * k_, centroids_weight_)`
   minK : Nat          -- `k < 10` throws
+  caddSafe : Bool     -- centroid::add falls back to the weight-ratio blend when the delta is not finite (true) or is the plain `mean_ += …` (false)
   quantW1W2 : Bool    -- get_quantile calls `weighted_average(mean[i], w1, mean[i+1], w2)` (true) or `(…, w2, …, w1)` (false)
 
 structure Scale (δ : Type) where
@@ -86,10 +87,22 @@ def insertC (x : Centroid α) : List (Centroid α) → List (Centroid α)
 /-- `std::stable_sort(buffer.begin(), buffer.end(), centroid_cmp())` -/
 def stableSort (l : List (Centroid α)) : List (Centroid α) := l.foldr insertC []
 
-/-- `centroid::add`: `weight_ += other.weight_; mean_ += (other.mean_ - mean_) * other.weight_ / weight_;` (all in `T`) -/
-def cadd (a b : Centroid α) : Centroid α :=
-  { mean := a.mean +. (b.mean -. a.mean) *. ofNat b.weight /. ofNat (a.weight + b.weight),
-    weight := a.weight + b.weight }
+/-- the new mean of `centroid::add` (all in `T`; `weight_` is already `a.weight + b.weight`):
+`delta = (other.mean_ - mean_) * other.weight_ / weight_`;
+  * `safe = false` (pinned shape): `mean_ += delta`;
+  * `safe = true` (overflow-safe shape): `if (std::isfinite(delta)) mean_ += delta; else { ratio = T(other.weight_) / T(weight_);
+    mean_ = mean_ * (1 - ratio) + other.mean_ * ratio; }` — identical to the pinned shape whenever `delta` is finite
+    (always, in exact arithmetic). -/
+def caddMean (safe : Bool) (a b : Centroid α) : α :=
+  let delta := (b.mean -. a.mean) *. ofNat b.weight /. ofNat (a.weight + b.weight)
+  if (safe && !isFinite delta) = true then
+    let ratio : α := ofNat b.weight /. ofNat (a.weight + b.weight)
+    a.mean *. (ofNat 1 -. ratio) +. b.mean *. ratio
+  else a.mean +. delta
+
+/-- `centroid::add`: `weight_ += other.weight_;` then the mean update `caddMean` -/
+def cadd (safe : Bool) (a b : Centroid α) : Centroid α :=
+  { mean := caddMean safe a b, weight := a.weight + b.weight }
 
 /-- the scale-function test of `merge(buffer, weight)`:
 `proposed_weight <= centroids_weight_ * std::min(max(q0, normalizer), max(q2, normalizer))` -/
@@ -103,11 +116,11 @@ def addThis (sc : Scale δ) (kc cwD wsf : δ) (cur x : Centroid α) : Bool :=
 /-- the `while (it != buffer.end())` loop.  `first` = `std::distance(buffer.begin(), it) == 1` (the explicit
 protection of the first element); the second test `std::distance(buffer.end(), it) != 1` is always true
 (the distance is negative) and is therefore absent.  `cur` = `centroids_.back()`, `wsf` = `weight_so_far`. -/
-def cluster (sc : Scale δ) (kc cwD : δ) : Bool → Centroid α → δ → List (Centroid α) → List (Centroid α)
+def cluster (safe : Bool) (sc : Scale δ) (kc cwD : δ) : Bool → Centroid α → δ → List (Centroid α) → List (Centroid α)
   | _, cur, _, [] => [cur]
   | first, cur, wsf, x :: xs =>
-    if (!first && addThis sc kc cwD wsf cur x) = true then cluster sc kc cwD false (cadd cur x) wsf xs
-    else cur :: cluster sc kc cwD false x (wsf +. ofNat cur.weight) xs
+    if (!first && addThis sc kc cwD wsf cur x) = true then cluster safe sc kc cwD false (cadd safe cur x) wsf xs
+    else cur :: cluster safe sc kc cwD false x (wsf +. ofNat cur.weight) xs
 
 def headMean (cs : List (Centroid α)) (dflt : α) : α :=
   match cs.head? with
@@ -127,7 +140,7 @@ def mergeCore (sc : Scale δ) (tun : Tun) (s : St α) (tmp : List (Centroid α))
   match seq with
   | [] => s   -- never: both callers pass at least one element (the code would dereference `begin()` of an empty vector)
   | x :: xs =>
-    let out := cluster sc (ofNat (tun.comprMul * s.k) : δ) (ofNat cw) true x (ofNat 0) xs
+    let out := cluster tun.caddSafe sc (ofNat (tun.comprMul * s.k) : δ) (ofNat cw) true x (ofNat 0) xs
     let cs := if s.rev then out.reverse else out
     let fm := headMean cs s.min
     let lm := lastMean cs s.max
